@@ -9,10 +9,12 @@ import numlib as nl
 
 ID = "C15"
 MODULES = ["Series", "SO2", "SE2", "Rn", "SO3", "Ctrl", "Ref", "RefP"]
-LEAN_TARGETS = ["Props.C15"]
+LEAN_TARGETS = ["Props.C15", "Props.C15A"]
 ANCHORS = ["cyecca/models/rdd2.py", "cyecca/models/rdd2_loglinear.py"]
 MISSING = [
     "auto-level stick map bounds as theorems — numeric search only",
+    "log-linear SO(3) law: omega = J_l(e) diag(kp) e with e the library's quaternion log of q^-1 (x) q_r IS a theorem for every input (Props/C15A); "
+    "that it reaches the reference (J_l(e) e = e for a scalar gain) — numeric search, including exact and near half-turn errors",
     "attitude law 'reaches the reference': theorem for rdd2.attitude_control on the closed-form cells with unit gains; Taylor cells, the error angle pi, and the "
     "so3 / SE_2(3) log-linear attitude laws — numeric search",
 ]
@@ -136,10 +138,18 @@ def search(ctx):
     # ---- attitude laws
     ac = F("Ctrl", "rdd2.attitude_control"); sac = F("Ctrl", "loglinear.so3_attitude_control"); se = F("Ctrl", "loglinear.se23_error")
     expq = F("SO3", "SO3Quat.exp") if False else None
-    for it in range(n):
+    for it in range(n + 16):
         q = nl.unit_quat(rng)
         kind = it % 5
-        if kind == 0:
+        if it >= n:
+            # half-turn errors: exactly 180 deg (error quaternion with zero scalar part) and angles closing in on it from both sides
+            ax = nl.rand_axis(rng) if (it - n) % 4 else np.eye(3)[(it - n) // 4 % 3]
+            d = [0.0, 1e-9, -1e-7, 1e-5, 0.0, -1e-3, 1e-8, 3e-2][(it - n) % 8]
+            qe = np.concatenate([[0.0], ax]) if d == 0.0 else nl.quat_axis_angle(ax, np.pi + d)
+            q_r = qmul(q, qe)
+            if it % 2:
+                q_r = -q_r
+        elif kind == 0:
             q_r = q.copy()
         elif kind == 1:
             q_r = -q
